@@ -33,27 +33,36 @@ Definition plen (s : pos) : Z := Z.of_nat (length (arr (pq_ s))).
 Definition with_pq (s : pos) (q : pqt) : pos :=
   mkPos q (last_maint s) (n_ins s) (n_rem s) (factor s) (draws s).
 
+(* ---- starvation boosting: models the code REPAIRED by fixes/F11-boost.patch
+   (the unrepaired definitions are kept in Queue/BoostOld.v) ---- *)
+
 (* boost_stragglers over the array, in array order; returns new array,
-   remaining draws and the number boosted *)
+   remaining draws and the number boosted.  An entry is considered when it is
+   regular, a straggler (inserted_at < limit) and its CURRENT priority() is
+   strictly greater than min_pri; pb = random() * ((min_pri - priority) * factor)
+   is ADDED to its boost, and only when pb < 0. *)
 Fixpoint boost_loop (a : list (entry pv)) (limit : Z) (min_pri : Q) (f : Q)
          (ds : list Q) : list (entry pv) * list Q * nat :=
   match a with
   | [] => ([], ds, O)
   | e :: t =>
       let p := epri e in
-      if (pclass p =? 0)%Z || negb (ins_at p <? limit)%Z || negb (qltb min_pri (base p))
+      if (pclass p =? 0)%Z || negb (ins_at p <? limit)%Z || negb (qltb min_pri (pv_priority p))
       then let '(t', ds', n) := boost_loop t limit min_pri f ds in (e :: t', ds', n)
       else
         let r := match ds with [] => 0 | d :: _ => d end in
-        let pb := r * ((min_pri - base p) * f) in
+        let pb := r * ((min_pri - pv_priority p) * f) in
         let ds1 := tl ds in
-        if Qeq_bool pb 0
+        if negb (qltb pb 0)
         then let '(t', ds', n) := boost_loop t limit min_pri f ds1 in (e :: t', ds', n)
         else let '(t', ds', n) := boost_loop t limit min_pri f ds1 in
-             (mkE (mkPV (base p) (ins_at p) pb (pclass p)) (eseq e) (eobj e) :: t', ds', S n)
+             (mkE (mkPV (base p) (ins_at p) (boost p + pb) (pclass p)) (eseq e) (eobj e) :: t',
+              ds', S n)
   end.
 
-(* min over the regular entries, seeded as the code seeds it *)
+(* running minimum of priority() over the regular entries, starting from [mn]
+   (the code starts from +inf; do_maintenance below passes the priority of the
+   first regular entry, which gives the same result) *)
 Fixpoint minmax_loop (a : list (entry pv)) (mn : Q) : Q :=
   match a with
   | [] => mn
@@ -66,11 +75,11 @@ Definition has_straggler (a : list (entry pv)) (limit : Z) : bool :=
 
 Definition do_maintenance (s : pos) : pos :=
   if Qeq_bool (factor s) 0 then s else
-  match arr (pq_ s) with
-  | [] => s
-  | head :: _ =>
-      let a := arr (pq_ s) in
-      let min_pri := minmax_loop a (pv_priority (epri head)) in
+  let a := arr (pq_ s) in
+  match find (fun e => negb (pclass (epri e) =? 0)%Z) a with
+  | None => s                                   (* no regular entry: no stragglers *)
+  | Some r =>
+      let min_pri := minmax_loop a (pv_priority (epri r)) in
       let limit := (n_ins s - plen s)%Z in
       if has_straggler a limit then
         let '(a', ds', n) := boost_loop a limit min_pri (factor s) (draws s) in
@@ -91,7 +100,7 @@ Definition update_counters (s : pos) (inserted : bool) : pos :=
   else
     if (0 <? plen s)%Z
     then mkPos (pq_ s) (last_maint s) (n_ins s) (n_rem s + 1) (factor s) (draws s)
-    else mkPos (pq_ s) (last_maint s) 0 0 (factor s) (draws s).
+    else mkPos (pq_ s) 0 0 0 (factor s) (draws s).   (* counters AND last_maintenance *)
 
 Definition pos_append_pri (s : pos) (o : Z) (p : Q) : pos :=
   update_counters (with_pq s (add (pq_ s) (mkPV p (n_ins s) 0 1) o)) true.
